@@ -7,7 +7,7 @@
 // History syntax (one token, no spaces):
 //
 //	hist = conn { "," conn }
-//	conn = pre "/" "d"<dst> "/" "s"<server> "/" csuites "/" ssuites "/" fault
+//	conn = pre "/" "d"<dst> "/" "s"<server> "/" csuites "/" ssuites "/" fault [ "/" auth ]
 //	pre  = "-" | act { "+" act }
 //	act  = "j"<k>      k Puts of unrelated fresh sessions under fresh keys (evictions)
 //	     | "fg"        Put(dst, a forged session whose identifier no server ever issued, carrying the
@@ -21,6 +21,12 @@
 //	              | "e"<k> (no network fault: while the handshake is in flight — after the client
 //	                has sent its ClientHello — k unrelated sessions are Put into the client's
 //	                cache, as concurrent connections sharing the cache would do; C11 only)
+//	auth   = "a"<policy><cert>   policy = 0..5, the server's Config.ClientAuth (NoClientCert,
+//	              RequestClientCert, RequireAnyClientCert, VerifyClientCertIfGiven,
+//	              RequireAndVerifyClientCert, RequireAndVerifyAnyKeyUsageClientCert; ClientCAs = the
+//	              root); cert = "n" (the client has no certificate) | "c" | "d" (the client is
+//	              configured with authentication certificate C / D, both issued by the root).
+//	              Absent = "a0n".
 package resume
 
 import (
@@ -43,6 +49,8 @@ type Conn struct {
 	Server int
 	CS, SS []uint16
 	Fault  string
+	Auth   int    // the server's ClientAuth policy, 0..5
+	Cert   string // "n" | "c" | "d": the client's certificate
 }
 
 func parseSuites(s string) []uint16 {
@@ -75,10 +83,17 @@ func ParseHist(s string) []Conn {
 	var out []Conn
 	for _, cs := range strings.Split(s, ",") {
 		f := strings.Split(cs, "/")
-		if len(f) != 6 {
+		if len(f) != 6 && len(f) != 7 {
 			panic("bad connection description " + cs)
 		}
-		var c Conn
+		c := Conn{Cert: "n"}
+		if len(f) == 7 {
+			a := f[6]
+			if len(a) != 3 || a[0] != 'a' || a[1] < '0' || a[1] > '5' || !strings.Contains("ncd", a[2:]) {
+				panic("bad client-authentication field " + a)
+			}
+			c.Auth, c.Cert = int(a[1]-'0'), a[2:]
+		}
 		if f[0] != "-" {
 			c.Pre = strings.Split(f[0], "+")
 		}
@@ -96,7 +111,15 @@ func (c Conn) String() string {
 	if len(c.Pre) > 0 {
 		pre = strings.Join(c.Pre, "+")
 	}
-	return fmt.Sprintf("%s/d%d/s%d/%s/%s/%s", pre, c.Dst, c.Server, showSuites(c.CS), showSuites(c.SS), c.Fault)
+	s := fmt.Sprintf("%s/d%d/s%d/%s/%s/%s", pre, c.Dst, c.Server, showSuites(c.CS), showSuites(c.SS), c.Fault)
+	if c.Auth != 0 || (c.Cert != "n" && c.Cert != "") {
+		cert := c.Cert
+		if cert == "" {
+			cert = "n"
+		}
+		s += fmt.Sprintf("/a%d%s", c.Auth, cert)
+	}
+	return s
 }
 
 func ShowHist(h []Conn) string {
@@ -208,6 +231,10 @@ type HS struct {
 	Suite, SSuite      uint16 // negotiated suite at the client / at the server
 	PeerDER            []byte
 	Fin                []byte // client verify_data || server verify_data at the client
+	// the server's view of its peer
+	SPeerDER  []byte // first certificate of the server's ConnectionState().PeerCertificates
+	SVerified bool   // the server's ConnectionState().VerifiedChains is non-empty
+	VPC, VC   string // what the server's VerifyPeerCertificate / VerifyConnection callbacks saw: "x" = not called, else a client identity
 }
 
 // Ops is the per-stack part.
@@ -226,7 +253,7 @@ type Ops[S comparable] struct {
 	// mid (may be nil) is called once, when the client has handed its first flight to the transport.
 	// DstKey is the remote-address string of destination d (the client's cache key).
 	DstKey    func(d int) string
-	Handshake func(dst int, server int, cs, ss []uint16, ccache, scache Cache[S], fault string, seed uint64, mid func()) HS
+	Handshake func(c Conn, ccache, scache Cache[S], seed uint64, mid func()) HS
 	// Identity maps a peer certificate to "A" (server 0), "B" (server 1) or "?".
 	Identity func(der []byte) string
 }
@@ -243,6 +270,7 @@ type Out struct {
 	MS       string
 	Fresh    string
 	Ctl      string
+	SView    string // the server's view of its peer: "-" | <id>[v]:<vpc>:<vc>
 	Why      string
 }
 
@@ -254,7 +282,7 @@ func okStr(b bool) string {
 }
 
 func (o Out) String() string {
-	return strings.Join([]string{okStr(o.COk), okStr(o.SOk), o.CRes, o.SRes, o.Off, o.Ret, o.Len, o.Suite, o.Peer, o.MS, o.Fresh, o.Ctl}, "/")
+	return strings.Join([]string{okStr(o.COk), okStr(o.SOk), o.CRes, o.SRes, o.Off, o.Ret, o.Len, o.Suite, o.Peer, o.MS, o.Fresh, o.Ctl, o.SView}, "/")
 }
 
 // Runner executes a history on one stack.
@@ -371,8 +399,11 @@ func (r *Runner[S]) Step(i int, c Conn) Out {
 			}
 		}
 	}
-	h := r.ops.Handshake(c.Dst, c.Server, c.CS, c.SS, r.Client, r.srv[c.Server], c.Fault, r.rnd.U64(), mid)
-	o := Out{COk: h.CErr == nil, SOk: h.SErr == nil, CRes: "-", SRes: "-", Len: "-", Suite: "-", Peer: "-", MS: "-", Fresh: "-"}
+	if c.Cert == "" {
+		c.Cert = "n"
+	}
+	h := r.ops.Handshake(c, r.Client, r.srv[c.Server], r.rnd.U64(), mid)
+	o := Out{COk: h.CErr == nil, SOk: h.SErr == nil, CRes: "-", SRes: "-", Len: "-", Suite: "-", Peer: "-", MS: "-", Fresh: "-", SView: "-"}
 	o.Off = r.name(r.ids, "n", h.Off)
 	if h.SawServerHello {
 		o.Ret = r.name(r.ids, "n", h.Ret)
@@ -405,6 +436,11 @@ func (r *Runner[S]) Step(i int, c Conn) Out {
 		if !o.COk {
 			o.Suite = fmt.Sprintf("%04x", h.SSuite)
 		}
+		v := ""
+		if h.SVerified {
+			v = "v"
+		}
+		o.SView = ClientIdentity(h.SPeerDER) + v + ":" + h.VPC + ":" + h.VC
 	}
 	o.Why = why(h.CErr) + ":" + why(h.SErr)
 	if r.NoCtl {
@@ -412,12 +448,14 @@ func (r *Runner[S]) Step(i int, c Conn) Out {
 	} else {
 		// control: the same two configurations without any session cache
 		// (its outcome depends on the configurations only: memoised per process)
-		key := fmt.Sprintf("%s/%d/%s/%s", r.ops.Name, c.Server, showSuites(c.CS), showSuites(c.SS))
+		key := fmt.Sprintf("%s/%d/%s/%s/a%d%s", r.ops.Name, c.Server, showSuites(c.CS), showSuites(c.SS), c.Auth, c.Cert)
 		ctlMu.Lock()
 		res, ok := ctlMemo[key]
 		ctlMu.Unlock()
 		if !ok {
-			ctl := r.ops.Handshake(c.Dst, c.Server, c.CS, c.SS, nil, nil, "ok", r.rnd.U64(), nil)
+			cc := c
+			cc.Pre, cc.Fault = nil, "ok"
+			ctl := r.ops.Handshake(cc, nil, nil, r.rnd.U64(), nil)
 			if ctl.CErr == nil && ctl.SErr == nil {
 				res = fmt.Sprintf("ok:%04x", ctl.Suite)
 			} else {
@@ -539,6 +577,38 @@ func ServerCerts(i int) [][]byte {
 		return [][]byte{s.Srv2Sig.DER, s.Srv2Enc.DER}
 	}
 	return [][]byte{s.SrvSig.DER, s.SrvEnc.DER}
+}
+
+// the client certificates: C is the standard catalogue's client signing certificate, D a second
+// one issued by the same root (both verify under ClientCAs = the root)
+var (
+	cliOnce sync.Once
+	cliD    *pki.Leaf
+)
+
+// ClientLeaf returns the certificate named by a history ("c" | "d"), nil for "n".
+func ClientLeaf(name string) *pki.Leaf {
+	switch name {
+	case "c":
+		return pki.Std().CliSig
+	case "d":
+		cliOnce.Do(func() { cliD = pki.Std().Root.Issue("cli2 sig", true, pki.KeySM2) })
+		return cliD
+	}
+	return nil
+}
+
+// ClientIdentity maps a client certificate to "C", "D", "?" or "n" (none).
+func ClientIdentity(der []byte) string {
+	switch {
+	case len(der) == 0:
+		return "n"
+	case bytes.Equal(der, ClientLeaf("c").DER):
+		return "C"
+	case bytes.Equal(der, ClientLeaf("d").DER):
+		return "D"
+	}
+	return "?"
 }
 
 // helloSessionID extracts the session id of a ClientHello/ServerHello body that starts at
